@@ -67,7 +67,6 @@ Proof.
   unfold csv_row, data_of. cbn [andb]. rewrite <- E1, <- E2, <- E3, <- E4, <- E5, <- E6, <- E7, <- E8, <- E9.
   destruct (kinds_of (split (c_kind r1))) as [kinds| | | |]; cbn [bind]; try reflexivity.
   destruct kinds as [|k0 krest]; cbn [bind]; try reflexivity.
-  destruct (kind_is_complex k0 && is_empty_list krest); cbn [bind]; try reflexivity.
   match goal with |- bind ?T _ = _ => destruct T end; reflexivity.
 Qed.
 
@@ -312,13 +311,17 @@ Proof.
 Qed.
 
 (* a complex selector with any number of sub-selectors of any mix of kinds is read back *)
-Lemma complex_target_roundtrip idcol dc k bs r : k <> 0 -> bs <> [] -> Forall sub_wf bs ->
+Lemma complex_target_roundtrip idcol dc k bs r : k <> 0 -> Forall sub_wf bs ->
   assemble idcol dc k (map member_of bs) = Some r ->
   exists d, csv_row false (norm r)
             = Ok {| Loader.ab_id := opt idcol; Loader.ab_data := d;
                     Loader.ab_target := Some (BComplex (complex_kind k) bs) |}.
 Proof.
-  intros Hk Hbs Hwf Hr.
+  intros Hk Hwf Hr.
+  destruct bs as [|b0 bs0].
+  { (* a complex selector without members: the kind on its own *)
+    destruct k as [|[|[|k']]]; [contradiction| | |]; cbn [assemble map] in Hr; injection Hr as <-; eexists; reflexivity. }
+  assert (b0 :: bs0 <> []) as Hbs by discriminate. remember (b0 :: bs0) as bs eqn:Ebs0. clear Ebs0.
   assert (forall m, In m (map member_of bs) -> exists b, m = member_of b /\ simple_wf b) as Hms.
   { intros m Hm. apply in_map_iff in Hm. destruct Hm as (b & <- & Hb). exists b. split; [reflexivity|].
     rewrite Forall_forall in Hwf. apply Hwf. exact Hb. }
@@ -340,8 +343,6 @@ Proof.
     with (map kind_str (ck :: map m_kind (map member_of bs))).
   rewrite kinds_of_map. cbn [bind].
   rewrite Hc. cbn [negb].
-  assert (is_empty_list (map m_kind (map member_of bs)) = false) as Hne by (destruct bs; [contradiction|reflexivity]).
-  rewrite Hne. cbn [andb].
   (* the columns *)
   rewrite !push_all_opt by (destruct bs; [contradiction|discriminate]).
   cbn [split_opt].
@@ -387,7 +388,7 @@ Definition target_of (k : nat) (bs : list Loader.sbuild) : Loader.sbuild :=
 Definition target_wf (k : nat) (bs : list Loader.sbuild) : Prop :=
   match k with
   | 0 => exists b, bs = [b] /\ simple_wf b
-  | _ => bs <> [] /\ Forall sub_wf bs
+  | _ => Forall sub_wf bs
   end.
 
 (* unpack (pack) at the level of one row: any id, any number of data references, a simple
@@ -403,8 +404,7 @@ Proof.
   rewrite (data_of_columns r ds Hds Hd Hs).
   destruct k as [|k'].
   - destruct Hwf as (b & -> & Hb). destruct (simple_target_roundtrip _ _ _ _ Hb Hr) as (d & ->). reflexivity.
-  - destruct Hwf as (Hne & Hall).
-    destruct (complex_target_roundtrip _ _ (S k') _ _ (Nat.neq_succ_0 k') Hne Hall Hr) as (d & ->). reflexivity.
+  - destruct (complex_target_roundtrip _ _ (S k') _ _ (Nat.neq_succ_0 k') Hwf Hr) as (d & ->). reflexivity.
 Qed.
 
 (** * From the store to the row: what the writer packs is what the reader unpacks *)
@@ -658,12 +658,12 @@ Qed.
 (* unpack (pack s a) = Ok builder, for every live annotation of a well-formed store: the builder
    names exactly the annotation's id column, its data and, leaf by leaf, its target *)
 Theorem pack_row_decodes s h a r : store_ok s = true -> get_ann s h = Some a ->
-  (a_kind a <> 0 -> a_leaves a <> []) -> pack_row s h a = Some r ->
+  pack_row s h a = Some r ->
   exists bs ds, map_opt (leaf_build s) (a_leaves a) = Some bs /\ data_names s a = Some ds /\
     csv_row_now r = Ok {| Loader.ab_id := opt (id_column h a); Loader.ab_data := ds;
                           Loader.ab_target := Some (target_of (a_kind a) bs) |}.
 Proof.
-  intros Hok Ha Hk Hr. unfold pack_row in Hr.
+  intros Hok Ha Hr. unfold pack_row in Hr.
   rewrite (map_opt_ext _ _ _ (leaf_member_build s)) in Hr. rewrite map_opt_map in Hr.
   destruct (map_opt (leaf_build s) (a_leaves a)) as [bs|] eqn:Ebs; [|discriminate]. cbn [option_map] in Hr.
   destruct (data_names s a) as [ds|] eqn:Eds; [|discriminate].
@@ -675,10 +675,7 @@ Proof.
   destruct (a_kind a) as [|k'] eqn:Ek.
   - cbn [target_wf]. cbn [assemble] in Hr. destruct bs as [|b [|b' bs]]; try discriminate.
     exists b. split; [reflexivity|]. apply (Hwf b). left. reflexivity.
-  - cbn [target_wf]. split.
-    + intros ->. apply map_opt_length in Ebs. cbn [length] in Ebs.
-      destruct (a_leaves a); [apply Hk; [discriminate|reflexivity]|discriminate].
-    + apply Forall_forall. exact Hwf.
+  - cbn [target_wf]. apply Forall_forall. exact Hwf.
 Qed.
 
 (** * Offsets: written in any of the four alignments, read back, resolved: the same range *)
@@ -818,11 +815,12 @@ Lemma Known_C15_tempid_witness :
   /\ roundtrip (run tempid_gap_ops) = LErr.
 Proof. vm_compute. repeat split; discriminate. Qed.
 
+(* a complex selector without members (annotate() accepts it): read back since 8591e12 *)
 Definition empty_complex_ops : list op :=
-  [ AddRes 0 3; Annotate (mkab (Some 0) (Some (Store.BComplex 1 [])) []) ].
+  [ AddRes 0 3; Annotate (mkab (Some 0) (Some (Store.BComplex 1 [])) []);
+    Annotate (mkab (Some 1) (Some (Store.BComplex 3 [])) []) ].
 
-Lemma Known_C15_empty_complex_witness :
-  Known_C15_empty_complex (run empty_complex_ops) = true
-  /\ length (live_items (anns (run empty_complex_ops))) = 1
-  /\ roundtrip (run empty_complex_ops) = LErr.
-Proof. vm_compute. repeat split. Qed.
+Lemma empty_complex_roundtrip :
+  length (live_items (anns (run empty_complex_ops))) = 2
+  /\ sx_of_loaded (roundtrip (run empty_complex_ops)) = roundtrip_spec (run empty_complex_ops).
+Proof. vm_compute. split; reflexivity. Qed.
